@@ -450,7 +450,9 @@ theorem privRSA_noPanic (C : CryptoOps) (kb : KeyBlockV) : (privRSA C kb).NoPani
 
 theorem privECDSATail_noPanic (C : CryptoOps) (t : EcPrivT) : (privECDSATail C t).NoPanic := by
   intro m; unfold privECDSATail
-  split <;> simp
+  split
+  · simp
+  · split <;> simp
 
 theorem privECDSA_noPanic (C : CryptoOps) (kb : KeyBlockV) : (privECDSA C kb).NoPanic := by
   intro m; unfold privECDSA
@@ -492,17 +494,111 @@ theorem privCrypto_noPanic (C : CryptoOps) (kb : KeyBlockV) : (privCrypto C kb).
         · rename_i h; exact absurd h (getBytes_noPanic kb _)
       · simp
 
-/-- `Pkcs8Pem` can only panic inside `x509.MarshalPKCS8PrivateKey`. -/
-theorem privPkcs8Pem_noPanic (C : CryptoOps) (hm : ∀ k, (C.marshalPKCS8 k).NoPanic) (kb : KeyBlockV) :
-    (privPkcs8Pem C kb).NoPanic := by
+/-- the key `PrivateKey.ECDSA` returns is one `MarshalPKCS8PrivateKey` accepts without panicking: it was
+    parsed by the standard library or built from a scalar in `[1, n-1]` (the check of e2e4a08). -/
+theorem privECDSA_ok_safe (C : Crypto) (kb : KeyBlockV) (k : C.EcPriv) (m : String)
+    (h : privECDSA C.toCryptoOps kb = .ok k) : C.marshalPKCS8 (.ecdsa k) ≠ .panic m := by
+  unfold privECDSA at h
+  split at h
+  · cases hb : getBytes kb with
+    | ok raw =>
+      rw [hb] at h
+      simp only at h
+      cases hp : C.parseSEC1 raw with
+      | none => rw [hp] at h; cases h
+      | some k' =>
+        rw [hp] at h
+        simp only [ofOption, Res.ok.injEq] at h
+        subst h
+        exact C.marshalPKCS8_sec1_noPanic raw k' m hp
+    | err e => rw [hb] at h; cases h
+    | panic m' => rw [hb] at h; cases h
+  · split at h
+    · cases hb : getBytes kb with
+      | ok raw =>
+        rw [hb] at h
+        simp only at h
+        cases hp : C.parsePKCS8 raw with
+        | none => rw [hp] at h; cases h
+        | some a =>
+          rw [hp] at h
+          cases a <;> simp at h
+          subst h
+          exact C.marshalPKCS8_parsed_noPanic raw _ m hp
+      | err e => rw [hb] at h; cases h
+      | panic m' => rw [hb] at h; cases h
+    · split at h
+      · cases hm : getMaterial kb with
+        | ok mat =>
+          rw [hm] at h
+          simp only at h
+          cases hs : ecPrivSlot kb mat with
+          | none => rw [hs] at h; cases h
+          | some tkey =>
+            rw [hs] at h
+            simp only [privECDSATail] at h
+            split at h
+            · cases h
+            · split at h
+              · cases h
+              · rename_i hc hr
+                simp only [Res.ok.injEq] at h
+                subst h
+                have hc' : curveSupported tkey.curve = true := by simpa using hc
+                exact C.marshalPKCS8_built_noPanic tkey.curve tkey.d m hc' (by omega) (by omega)
+        | err e => rw [hm] at h; cases h
+        | panic m' => rw [hm] at h; cases h
+      · cases h
+
+theorem privCrypto_ok_safe (C : Crypto) (kb : KeyBlockV) (k : C.Priv) (m : String)
+    (h : privCrypto C.toCryptoOps kb = .ok k) : C.marshalPKCS8 k ≠ .panic m := by
+  unfold privCrypto at h
+  split at h
+  · cases he : privECDSA C.toCryptoOps kb with
+    | ok k' =>
+      rw [he] at h
+      simp only [Res.ok.injEq] at h
+      subst h
+      exact privECDSA_ok_safe C kb k' m he
+    | err e => rw [he] at h; cases h
+    | panic m' => rw [he] at h; cases h
+  · split at h
+    · cases he : privRSA C.toCryptoOps kb with
+      | ok k' =>
+        rw [he] at h
+        simp only [Res.ok.injEq] at h
+        subst h
+        exact C.marshalPKCS8_rsa_noPanic k' m
+      | err e => rw [he] at h; cases h
+      | panic m' => rw [he] at h; cases h
+    · split at h
+      · cases hb : getBytes kb with
+        | ok raw =>
+          rw [hb] at h
+          simp only at h
+          cases hp : C.parsePKCS8 raw with
+          | none => rw [hp] at h; cases h
+          | some a =>
+            rw [hp] at h
+            simp only [ofOption, Res.ok.injEq] at h
+            subst h
+            exact C.marshalPKCS8_parsed_noPanic raw a m hp
+        | err e => rw [hb] at h; cases h
+        | panic m' => rw [hb] at h; cases h
+      · cases h
+
+/-- `Pkcs8Pem` can only panic inside `x509.MarshalPKCS8PrivateKey` — and under the laws it does not. -/
+theorem privPkcs8Pem_noPanic (C : Crypto) (kb : KeyBlockV) : (privPkcs8Pem C.toCryptoOps kb).NoPanic := by
   intro m; unfold privPkcs8Pem
-  split
-  · split
-    · simp
-    · simp
-    · rename_i h; exact absurd h (hm _ _)
-  · simp
-  · rename_i h; exact absurd h (privCrypto_noPanic C kb _)
+  cases hk : privCrypto C.toCryptoOps kb with
+  | ok k =>
+    simp only
+    cases hm : C.marshalPKCS8 k with
+    | ok der => simp
+    | err e => simp
+    | panic m' => exact absurd hm (privCrypto_ok_safe C kb k m' hk)
+  | err e => simp
+  | panic m' => exact absurd hk (privCrypto_noPanic C.toCryptoOps kb _)
 
 theorem privPkcs8Pem_panic_iff (C : CryptoOps) (kb : KeyBlockV) (m : String) :
     privPkcs8Pem C kb = .panic m ↔ ∃ k, privCrypto C kb = .ok k ∧ C.marshalPKCS8 k = .panic m := by
@@ -596,13 +692,13 @@ theorem getPrivateKey_noPanic (C : CryptoOps) (r : GetResp) : (getPrivateKey C r
     · exact privCrypto_noPanic C _ m
     · simp
 
-theorem getPemPrivateKey_noPanic (C : CryptoOps) (hm : ∀ k, (C.marshalPKCS8 k).NoPanic) (r : GetResp) :
-    (getPemPrivateKey C r).NoPanic := by
+theorem getPemPrivateKey_noPanic (C : Crypto) (r : GetResp) :
+    (getPemPrivateKey C.toCryptoOps r).NoPanic := by
   intro m; unfold getPemPrivateKey
   split
   · simp
   · split
-    · exact privPkcs8Pem_noPanic C hm _ m
+    · exact privPkcs8Pem_noPanic C _ m
     · simp
 
 theorem getRsaPublicKey_noPanic (C : CryptoOps) (r : GetResp) : (getRsaPublicKey C r).NoPanic := by
@@ -644,7 +740,8 @@ theorem resAs_noPanic {α : Type} (r : Res α) (f : α → Out) (h : r.NoPanic) 
   | err e => simp [resAs]
   | panic m' => exact absurd rfl (h m')
 
-theorem run_noPanic (C : CryptoOps) (hm : (a = .privPem ∨ a = .getPemPriv) → ∀ k, (C.marshalPKCS8 k).NoPanic)
+/-- without any law: every accessor except the two PKCS#8 PEM helpers. -/
+theorem run_noPanic_ops (C : CryptoOps) (a : Accessor) (ha : a ≠ .privPem ∧ a ≠ .getPemPriv)
     (r : GetResp) : (run C a r).NoPanic := by
   intro m
   have herr : ∀ e : Err, (Res.err e : Res Out) ≠ .panic m := by intro e h; cases h
@@ -661,7 +758,7 @@ theorem run_noPanic (C : CryptoOps) (hm : (a = .privPem ∨ a = .getPemPriv) →
   case privRSA => split <;> first | exact resAs_noPanic _ _ (privRSA_noPanic C _) m | exact herr _
   case privECDSA => split <;> first | exact resAs_noPanic _ _ (privECDSA_noPanic C _) m | exact herr _
   case privCrypto => split <;> first | exact resAs_noPanic _ _ (privCrypto_noPanic C _) m | exact herr _
-  case privPem => split <;> first | exact resAs_noPanic _ _ (privPkcs8Pem_noPanic C (hm (Or.inl rfl)) _) m | exact herr _
+  case privPem => exact absurd rfl ha.1
   case certX509 => split <;> first | exact resAs_noPanic _ _ (certX509_noPanic C _ _) m | exact herr _
   case certPem => split <;> first | exact resAs_noPanic _ _ (certPem_noPanic C _ _) m | exact herr _
   case getSecret => exact resAs_noPanic _ _ (getSecret_noPanic r) m
@@ -672,11 +769,27 @@ theorem run_noPanic (C : CryptoOps) (hm : (a = .privPem ∨ a = .getPemPriv) →
   case getRsaPriv => exact resAs_noPanic _ _ (getRsaPrivateKey_noPanic C r) m
   case getEcdsaPriv => exact resAs_noPanic _ _ (getEcdsaPrivateKey_noPanic C r) m
   case getPriv => exact resAs_noPanic _ _ (getPrivateKey_noPanic C r) m
-  case getPemPriv => exact resAs_noPanic _ _ (getPemPrivateKey_noPanic C (hm (Or.inr rfl)) r) m
+  case getPemPriv => exact absurd rfl ha.2
   case getRsaPub => exact resAs_noPanic _ _ (getRsaPublicKey_noPanic C r) m
   case getEcdsaPub => exact resAs_noPanic _ _ (getEcdsaPublicKey_noPanic C r) m
   case getPub => exact resAs_noPanic _ _ (getPublicKey_noPanic C r) m
   case getPemPub => exact resAs_noPanic _ _ (getPemPublicKey_noPanic C r) m
+
+/-- under the laws of the standard library: every accessor. -/
+theorem run_noPanic (C : Crypto) (a : Accessor) (r : GetResp) : (run C.toCryptoOps a r).NoPanic := by
+  by_cases ha : a ≠ .privPem ∧ a ≠ .getPemPriv
+  · exact run_noPanic_ops C.toCryptoOps a ha r
+  · intro m
+    have herr : ∀ e : Err, (Res.err e : Res Out) ≠ .panic m := by intro e h; cases h
+    have : a = .privPem ∨ a = .getPemPriv := by
+      by_cases h1 : a = .privPem
+      · exact Or.inl h1
+      · by_cases h2 : a = .getPemPriv
+        · exact Or.inr h2
+        · exact absurd ⟨h1, h2⟩ ha
+    rcases this with h | h <;> subst h <;> simp only [run]
+    · split <;> first | exact resAs_noPanic _ _ (privPkcs8Pem_noPanic C _) m | exact herr _
+    · exact resAs_noPanic _ _ (getPemPrivateKey_noPanic C r) m
 
 /-! ### the toy standard library satisfies the laws -/
 
@@ -713,8 +826,29 @@ theorem deRsaPriv_ser (k : RsaPriv) : deRsaPriv (serRsaPriv k) = some k := by
 theorem deRsaPub_ser (k : RsaPub) : deRsaPub (serRsaPub k) = some k := by
   simp [deRsaPub, serRsaPub, takeUn_un_nil]
 
-theorem deEcPriv_ser (k : EcPriv) : deEcPriv (serEcPriv k) = some k := by
-  simp [deEcPriv, serEcPriv, takeUn_un, takeUn_un_nil, k.crv.isLt]
+theorem deEcPriv_ser (k : EcPriv) (h : k.d < 256 ^ orderBytes k.crv) : deEcPriv (serEcPriv k) = some k := by
+  simp [deEcPriv, serEcPriv, takeUn_un, takeUn_un_nil, k.crv.isLt, h]
+
+theorem deEcPriv_fits (bs : Bytes) (k : EcPriv) (h : deEcPriv bs = some k) : k.d < 256 ^ orderBytes k.crv := by
+  unfold deEcPriv at h
+  split at h
+  · split at h
+    · split at h
+      · split at h
+        · simp only [Option.some.injEq] at h
+          subst h
+          assumption
+        · cases h
+      · cases h
+    · cases h
+  · cases h
+
+theorem marshalPKCS8_ec_fits (k : EcPriv) (m : String) (h : k.d < 256 ^ orderBytes k.crv) :
+    marshalPKCS8 (.ecdsa k) ≠ .panic m := by
+  have : ¬ k.d ≥ 256 ^ orderBytes k.crv := by omega
+  simp [marshalPKCS8, this]
+
+theorem order_fits : ∀ i : Fin 4, curveOrder (curveCode i) ≤ ((256 ^ orderBytes i : Nat) : Int) := by decide
 
 theorem deEcPub_ser (k : EcPub) : deEcPub (serEcPub k) = some k := by
   simp [deEcPub, serEcPub, List.append_assoc, takeUn_un, takeUn_un_nil, k.crv.isLt]
@@ -734,7 +868,9 @@ theorem parsePKCS8_marshal (k : PrivAny RsaPriv EcPriv) (bs : Bytes) (h : marsha
     simp only [marshalPKCS8] at h
     split at h
     · cases h
-    · simp at h; subst h; simp [parsePKCS8, deEcPriv_ser]
+    · rename_i hd
+      simp at h; subst h
+      simp [parsePKCS8, deEcPriv_ser k (by omega)]
   | other => simp [marshalPKCS8] at h; subst h; simp [parsePKCS8]
 
 theorem parsePKIX_marshal (k : PubAny RsaPub EcPub) (bs : Bytes) (h : marshalPKIX k = some bs) :
@@ -750,8 +886,14 @@ def crypto : Crypto where
     simp only [ops, untag, tagged, if_true, Option.bind_some]; exact deRsaPub_ser k
   parsePKCS8_marshal := parsePKCS8_marshal
   parseSEC1_marshal k bs h := by
-    simp [ops] at h; subst h
-    simp only [ops, untag, tagged, if_true, Option.bind_some]; exact deEcPriv_ser k
+    simp only [ops, marshalSEC1] at h
+    split at h
+    · cases h
+    · rename_i hd
+      simp only [Option.some.injEq] at h
+      subst h
+      simp only [ops, untag, tagged, if_true, Option.bind_some]
+      exact deEcPriv_ser k (by omega)
   parsePKIX_marshal := parsePKIX_marshal
   parseCert_raw c := by simp [ops, untag, tagged]
   rsaPrivBuild_parts k p q _ := by
@@ -763,6 +905,44 @@ def crypto : Crypto where
     cases k with
     | mk crv d => simp [ops, (curve_facts crv).2.1]
   ecUnmarshal_marshal k _ := unpoint_point 4 k
+  marshalPKCS8_rsa_noPanic k m := by simp [ops, marshalPKCS8]
+  marshalPKCS8_parsed_noPanic bs k m h := by
+    cases k with
+    | rsa k => simp [ops, marshalPKCS8]
+    | other => simp [ops, marshalPKCS8]
+    | ecdsa k =>
+      apply marshalPKCS8_ec_fits
+      simp only [ops, parsePKCS8] at h
+      split at h
+      · simp at h
+      · rename_i r
+        cases hd : deEcPriv r with
+        | none => simp [hd] at h
+        | some k' =>
+          simp [hd] at h
+          subst h
+          exact deEcPriv_fits r k' hd
+      · simp at h
+      · cases h
+  marshalPKCS8_sec1_noPanic bs k m h := by
+    apply marshalPKCS8_ec_fits
+    simp only [ops] at h
+    cases hu : untag 6 bs with
+    | none => simp [hu] at h
+    | some r =>
+      simp [hu] at h
+      exact deEcPriv_fits r k h
+  marshalPKCS8_built_noPanic c d m hc h0 h1 := by
+    apply marshalPKCS8_ec_fits
+    show d.natAbs < 256 ^ orderBytes (curveIx c)
+    have hc' : c = 4 ∨ c = 7 ∨ c = 10 ∨ c = 13 := by
+      simp [curveSupported] at hc; omega
+    have h1' : d < curveOrder c := h1
+    rcases hc' with e | e | e | e <;> subst e
+    · have := order_fits 0; simp only [curveCode] at this; simp only [curveIx]; simp at this ⊢; omega
+    · have := order_fits 1; simp only [curveCode] at this; simp only [curveIx]; simp at this ⊢; omega
+    · have := order_fits 2; simp only [curveCode] at this; simp only [curveIx]; simp at this ⊢; omega
+    · have := order_fits 3; simp only [curveCode] at this; simp only [curveIx]; simp at this ⊢; omega
 
 end Toy
 
@@ -777,8 +957,7 @@ theorem RsaParts.eta2 (P : RsaParts) (p q : Int) (hp : P.primes = [p, q]) :
     RsaParts.mk P.n P.e P.d [p, q] P.dp P.dq P.qinv = P := by
   cases P; simp at hp; simp [hp]
 
-theorem rsaPriv_extract (C : Crypto) (kf : Nat) (k : C.RsaPriv) (o : Obj) (p q : Int)
-    (hp : (C.rsaPrivParts k).primes = [p, q])
+theorem rsaPriv_extract (C : Crypto) (kf : Nat) (k : C.RsaPriv) (o : Obj)
     (h : registerRsaPriv C.toCryptoOps kf k = .ok o) :
     getRsaPrivateKey C.toCryptoOps (respOf o) = .ok k := by
   unfold registerRsaPriv at h
@@ -798,8 +977,10 @@ theorem rsaPriv_extract (C : Crypto) (kf : Nat) (k : C.RsaPriv) (o : Obj) (p q :
         · cases h
         · cases h
       · split at h
-        · rw [hp] at h
-          simp only at h
+        · split at h
+          swap
+          · cases h
+          rename_i p q hp
           cases h
           have he := C.rsaPriv_e_int k
           have hparts := RsaParts.eta2 (C.rsaPrivParts k) p q hp
@@ -834,6 +1015,7 @@ theorem rsaPub_extract (C : Crypto) (kf : Nat) (k : C.RsaPub) (o : Obj)
         · cases h
 
 theorem ecPriv_extract (C : Crypto) (kf : Nat) (ver : Nat × Nat) (k : C.EcPriv) (o : Obj)
+    (hr : 0 < C.ecPrivD k ∧ C.ecPrivD k < C.curveOrder (C.ecPrivCurve k))
     (h : registerEcPriv C.toCryptoOps kf ver k = .ok o) :
     getEcdsaPrivateKey C.toCryptoOps (respOf o) = .ok k := by
   unfold registerEcPriv at h
@@ -862,11 +1044,11 @@ theorem ecPriv_extract (C : Crypto) (kf : Nat) (ver : Nat × Nat) (k : C.EcPriv)
           · cases h
             simp [getEcdsaPrivateKey, respOf, Obj.typeCode, plainKB, privECDSA, getMaterial, ecPrivSlot,
               privECDSATail, fECPrivateKey, fPKCS8, fTransparentECPrivateKey, fTransparentECDSAPrivateKey,
-              hc', C.ecPrivBuild_parts k hc']
+              hc', C.ecPrivBuild_parts k hc', hr]
           · cases h
             simp [getEcdsaPrivateKey, respOf, Obj.typeCode, plainKB, privECDSA, getMaterial, ecPrivSlot,
               privECDSATail, fECPrivateKey, fPKCS8, fTransparentECPrivateKey, fTransparentECDSAPrivateKey,
-              hc', C.ecPrivBuild_parts k hc']
+              hc', C.ecPrivBuild_parts k hc', hr]
         · cases h
 
 theorem ecPub_extract (C : Crypto) (kf : Nat) (ver : Nat × Nat) (k : C.EcPub) (o : Obj)
